@@ -10,6 +10,7 @@
 import Scico.Proofs.StepSizeEnv
 import Scico.Proofs.StepSizeRobust
 import Scico.Proofs.StepSizeHist
+import Scico.Proofs.StepSizeSpace
 import Mathlib.Analysis.InnerProductSpace.Basic
 import Mathlib.Analysis.InnerProductSpace.PiL2
 import Mathlib.Analysis.Complex.Basic
@@ -47,21 +48,8 @@ section inner
 
 variable {E : Type} [NormedAddCommGroup E] [InnerProductSpace ℝ E]
 
-/-- square roots of the idealised scalars (only the robust line search takes one) -/
-noncomputable local instance : HasSqrt ℝ := ⟨Real.sqrt⟩
-
-/-- the solver's view of a problem on a real inner-product space (`ℝⁿ`; `ℂⁿ` with `Re⟨·,·⟩`;
-    block arrays = product spaces): exact arithmetic embedded in the extended reals -/
-noncomputable def envOfSpace (f : E → ℝ) (grad : E → E) (prox : E → XR ℝ → E)
-    (smul : XR ℝ → E → E) : Env E (XR ℝ) where
-  f := fun x => fin (f x)
-  grad := grad
-  prox := prox
-  add := (· + ·)
-  sub := (· - ·)
-  smul := smul
-  reInner := fun a b => fin (inner ℝ a b)
-  norm := fun a => fin ‖a‖
+-- `envOfSpace f grad prox smul` (`Proofs/StepSizeSpace.lean`): the solver's view of a problem on a real inner-product
+-- space (`ℝⁿ`; `ℂⁿ` with `Re⟨·,·⟩`; block arrays = product spaces), exact arithmetic embedded in the extended reals
 
 open Classical in
 /-- `BBStepSize.update(v)` on a real inner-product space returns
@@ -290,8 +278,6 @@ end search
 section complex
 open ComplexConjugate
 
-noncomputable local instance : HasSqrt ℝ := ⟨Real.sqrt⟩
-
 theorem C16_bb_ratio_complex {n : Nat} (f : EuclideanSpace ℂ (Fin n) → ℝ)
     (grad : EuclideanSpace ℂ (Fin n) → EuclideanSpace ℂ (Fin n))
     (prox : EuclideanSpace ℂ (Fin n) → XR ℝ → EuclideanSpace ℂ (Fin n))
@@ -383,6 +369,52 @@ example : rlsT 2 1 = 2 := by
 
 end robust
 
+
+/-! ### the line search and the curvature of `f` -/
+
+section descent
+variable {E : Type} [NormedAddCommGroup E] [InnerProductSpace ℝ E]
+
+/-- **The values a line search rejects lie below the curvature of `f`.**  If `f` satisfies the quadratic upper bound with
+    constant `Lf` (descent lemma: `f(y) ≤ f(x) + ⟨∇f(x), y−x⟩ + (Lf/2)‖y−x‖²`, e.g. `∇f` `Lf`-Lipschitz), then every `M ≥ Lf` is
+    accepted whatever the prox; hence `LineSearchStepSize.update` returns `L` itself or a value `L·γ_u^k` whose predecessor
+    `L·γ_u^(k−1)` is `< Lf`: the returned reciprocal step never exceeds `max(L, γ_u·Lf)` — for any budget. -/
+theorem C16_linesearch_bounded (f : E → ℝ) (grad : E → E) (prox : E → XR ℝ → E) (smul : XR ℝ → E → E) (Lf : ℝ)
+    (hdesc : ∀ x y : E, f y ≤ f x + inner ℝ (grad x) (y - x) + Lf / 2 * (‖y - x‖ * ‖y - x‖))
+    (l0 g : ℝ) (maxiter : Nat) (x v : E) (ps ps' : PolState E (XR ℝ)) (L' : XR ℝ)
+    (h : update (envOfSpace f grad prox smul) (.ls (fin g) maxiter) x (fin l0) ps v = some (L', ps')) :
+    (∀ m : ℝ, Lf ≤ m → Accept (envOfSpace f grad prox smul) v (fin m)) ∧
+    ∃ k, L' = fin (l0 * g ^ k) ∧ (k = 0 ∨ l0 * g ^ (k - 1) < Lf) ∧ ∀ j, j < k → l0 * g ^ j < Lf := by
+  have hacc : ∀ m : ℝ, Lf ≤ m → Accept (envOfSpace f grad prox smul) v (fin m) := by
+    intro m hm
+    rw [accept_iff]
+    generalize xstep (envOfSpace f grad prox smul) v (fin m) = z
+    have h1 := hdesc v z
+    have h2 : Lf / 2 * (‖z - v‖ * ‖z - v‖) ≤ 1 / 2 * m * (‖z - v‖ * ‖z - v‖) := by
+      have : 0 ≤ ‖z - v‖ * ‖z - v‖ := mul_self_nonneg _
+      nlinarith
+    linarith
+  refine ⟨hacc, ?_⟩
+  have hrej : ∀ j, ¬ Accept (envOfSpace f grad prox smul) v (geom (fin l0) (fin g) j) → l0 * g ^ j < Lf := by
+    intro j hj
+    rw [C16_linesearch_value] at hj
+    by_contra hc
+    exact hj (hacc _ (not_lt.1 hc))
+  rcases C16_linesearch_update _ _ _ _ _ _ _ _ _ h with ⟨_, hL, _⟩ | ⟨k, _, hL, _, hall, _⟩
+  · exact ⟨0, by rw [hL]; simp, Or.inl rfl, fun j hj => absurd hj (Nat.not_lt_zero j)⟩
+  · refine ⟨k, by rw [hL, C16_linesearch_value], ?_, fun j hj => hrej j (hall j hj)⟩
+    rcases Nat.eq_zero_or_pos k with hk | hk
+    · exact Or.inl hk
+    · exact Or.inr (hrej (k - 1) (hall (k - 1) (by omega)))
+
+-- non-vacuity of the descent hypothesis: f(x) = x²/2 on ℝ, ∇f = id, Lf = 1 (equality holds)
+example : ∀ x y : ℝ, y ^ 2 / 2 ≤ x ^ 2 / 2 + inner ℝ x (y - x) + 1 / 2 * (‖y - x‖ * ‖y - x‖) := by
+  intro x y
+  have h : inner ℝ x (y - x) = (y - x) * x := by simp [mul_comm]
+  rw [h, Real.norm_eq_abs, abs_mul_abs_self]
+  nlinarith
+
+end descent
 
 /-! ### non-vacuity: concrete instances over `ℚ` -/
 
